@@ -36,7 +36,7 @@ func main() {
 			continue
 		}
 		alone := expect
-		planCache := g.Name == "plan-cache"
+		planCache := strings.HasPrefix(g.Name, "plan-cache")
 		if planCache {
 			c08.ResetCaches() // the types are first seen by the concurrent calls, not by the expectation runs above
 		}
